@@ -109,9 +109,18 @@ static Outcome ReaderLeg(RunCtx& ctx, Outcome& out)
 	std::u32string text;
 	{
 		const uint32_t unit = enc == 0 ? 1 : (enc <= 2 ? 2 : 4);
-		const uint32_t mode = s.draw(sim::L_DOC, 4);
+		const uint32_t mode = s.draw(sim::L_DOC, 5);
 		uint32_t nChars;
-		if (mode == 0) nChars = s.draw(sim::L_DOC, 6);
+		if (mode == 4)
+		{
+			// short texts in which ASCII and non-ASCII characters alternate (detection without BOM has only the ASCII ones to go by)
+			nChars = 0;
+			const uint32_t n = 2 + s.draw(sim::L_DOC, 11);
+			const uint32_t phase = s.draw(sim::L_DOC, 2);
+			static const char32_t wide[] = { 0x416, 0x418, 0x4E16, 0x754C, 0x60A8, 0x3002, 0xE9, 0x20AC };
+			for (uint32_t i = 0; i < n; ++i) text.push_back((i + phase) % 2 == 0 ? static_cast<char32_t>(U'a' + (i % 26)) : s.pick(sim::L_DOC, wide));
+		}
+		else if (mode == 0) nChars = s.draw(sim::L_DOC, 6);
 		else if (mode == 1) nChars = s.draw(sim::L_DOC, 40);
 		else nChars = (chunk * (1 + s.draw(sim::L_DOC, 5))) / unit + static_cast<uint32_t>(s.range(sim::L_DOC, -4, 4));
 		if (nChars > 3000) nChars = 3000;
@@ -262,13 +271,29 @@ static Outcome WriterLeg(RunCtx& ctx, Outcome& out)
 	sim::SimOStreamBuf sb(file, buf);
 	std::ostream os(&sb);
 	bool writeOk = true;
+	// 1 run in 4: between two good writes the program hands over an ill-formed text (a valid prefix, then a truncated or invalid
+	// sequence); the writer must refuse it and nothing of it may reach the file. (char source into UTF-8 is a byte copy: not refused.)
+	const bool withRefused = s.chance(sim::L_FAULT, 1, 4) && !(width == 0 && enc == 0);
+	const uint32_t refusedKind = s.draw(sim::L_FAULT, 2);
+	const size_t refusedBefore = s.draw(sim::L_FAULT, static_cast<uint32_t>(cuts.size()));
+	bool refusedAccepted = false;
 	sim::steps_begin(3000ull * (expected.size() + 4096));
 	CallResult cr = Guarded([&]
 	{
 		BitSerializer::Convert::Utf::CEncodedStreamWriter w(os, static_cast<UtfType>(enc), bom, UtfEncodingErrorPolicy::ThrowError);
 		size_t from = 0;
+		size_t writeNo = 0;
 		for (size_t to : cuts)
 		{
+			if (withRefused && writeNo++ == refusedBefore)
+			{
+				using BitSerializer::Convert::Utf::UtfEncodingErrorCode;
+				UtfEncodingErrorCode rc;
+				if (width == 0) rc = w.Write(refusedKind ? std::string("row,\xD0\x96ok\xE4\xB8") : std::string("row,\xD0\x96ok\xFFtail"));
+				else if (width == 1) { std::u16string b = u"row,\u0416ok"; b.push_back(static_cast<char16_t>(refusedKind ? 0xD800 : 0xDC00)); if (!refusedKind) b += u"tail"; rc = w.Write(b); }
+				else { std::u32string b = U"row,\u0416ok"; b.push_back(static_cast<char32_t>(refusedKind ? 0x110000 : 0xD800)); b += U"tail"; rc = w.Write(b); }
+				if (rc == UtfEncodingErrorCode::Success) refusedAccepted = true;
+			}
 			if (width == 0) { std::string part; for (size_t i = from; i < to; ++i) AppendUtf8(part, text[i]); writeOk &= w.Write(part) == BitSerializer::Convert::Utf::UtfEncodingErrorCode::Success; }
 			else if (width == 1) { std::u16string part; for (size_t i = from; i < to; ++i) AppendUtf16(part, text[i]); writeOk &= w.Write(part) == BitSerializer::Convert::Utf::UtfEncodingErrorCode::Success; }
 			else { std::u32string part(text.begin() + from, text.begin() + to); writeOk &= w.Write(part) == BitSerializer::Convert::Utf::UtfEncodingErrorCode::Success; }
@@ -280,6 +305,10 @@ static Outcome WriterLeg(RunCtx& ctx, Outcome& out)
 	const std::string tags = std::string("leg=writer enc=") + EncName(enc) + (bom ? " bom=1" : " bom=0") + " source=" + std::to_string(width);
 	if (!cr.ok) return Violation("WRONG_EXCEPTION", tags, "the encoded stream writer threw " + cr.cat + " (" + cr.what + ")");
 	if (!writeOk) return Violation("WRONG_VALUE", tags + " what=write_error", "Write() reported an encoding error for valid Unicode text");
+	if (withRefused) { ctx.count("fault.refused_write"); sim::probe("refused-write-between-good-writes"); }
+	// whether a given ill-formed text is refused at all belongs to the transcoding properties (not claimed here): when the writer
+	// accepted it, what it wrote for it is not this leg's business and the byte comparison is skipped
+	if (refusedAccepted) { ctx.count("illformed_text_accepted_by_writer"); return out; }
 	if (file != expected) return Violation("WRONG_VALUE", tags + " what=bytes", "written bytes differ from the reference encoding: " + DiffAt(sim::hex(expected, 4096), sim::hex(file, 4096)));
 	out.nontrivial = parts > 1 && text.size() > 64;
 	return out;
